@@ -130,12 +130,15 @@ example : rangeChecked .bn254 252 = true ∧ rangeChecked .bn254 253 = false := 
 
 /-! ### which `Num2Bits` an input of `LessThan` is checked by (`Model/LessThanPass.lean`, repair ee9259e) -/
 
-/-- an input of `LessThan` is reported unless it is also the input of a component that counts as `Num2Bits(k)` with a known `k`
-    passing the threshold of the curve (`C11_lessthan`: 2^k − 1 ≤ p/2) -/
-theorem C11_lessthan_reported (c : Curve) (ss : List LessThanPass.Stmt) (v : String) :
-    v ∈ LessThanPass.reported c ss ↔ LessThanPass.Input.lessThan v ∈ LessThanPass.inputs ss ∧
-      ¬ ∃ k, LessThanPass.Input.num2bits v (some k) ∈ LessThanPass.inputs ss ∧ rangeChecked c k = true :=
-  LessThanPass.mem_reported c ss v
+/-- an expression is reported exactly when some assignment of it to an input of `LessThan` is not covered by a component that
+    counts as `Num2Bits(k)` with a known `k` passing the threshold of the curve (`C11_lessthan`: 2^k − 1 ≤ p/2) and has the same
+    expression as its input — in the same basic block if the expression reads a local variable (fix 2b59069: `x[i]` after a loop is
+    another element than `x[i]` in its body; an expression over signals has one value in the whole template) -/
+theorem C11_lessthan_reported (c : Curve) (ss : List LessThanPass.Stmt) (t : String) :
+    t ∈ LessThanPass.reported c ss ↔ ∃ v b, LessThanPass.Input.lessThan v b ∈ LessThanPass.inputs ss ∧ v.1 = t ∧
+      ¬ ∃ w k b2, LessThanPass.Input.num2bits w (some k) b2 ∈ LessThanPass.inputs ss ∧ w.1 = v.1 ∧ rangeChecked c k = true ∧
+        (v.2 = true ∨ b2 = b) :=
+  LessThanPass.mem_reported c ss t
 
 /-- … a component counts as `Num2Bits` of some size only if every instantiation that may be this component is a `Num2Bits` of
     that size ("counts as range-checked by `Num2Bits(k)` only if") … -/
@@ -164,14 +167,26 @@ theorem C11_lessthan_candidates (a b : LessThanPass.Key) (hn : a.name = b.name) 
 example : LessThanPass.reported .bn254
     [.inst ⟨"lt", "lt", []⟩ .lessThan, .inst ⟨"nb[i.1]", "nb", [.idx none]⟩ (.num2bits (some 8) "8"),
      .inst ⟨"nb[2]", "nb", [.idx (some "f2")]⟩ (.num2bits (some 254) "254"), .inst ⟨"rb", "rb", []⟩ (.num2bits (some 8) "8"),
-     .input ⟨"nb[i.1]", "nb", [.idx none]⟩ "in" false "a" none, .input ⟨"rb", "rb", []⟩ "in" false "b" none,
-     .input ⟨"lt", "lt", []⟩ "in" true "a" none, .input ⟨"lt", "lt", []⟩ "in" true "b" none] = ["a"] := by
+     .input ⟨"nb[i.1]", "nb", [.idx none]⟩ "in" false ("a", true) none 3, .input ⟨"rb", "rb", []⟩ "in" false ("b", true) none 3,
+     .input ⟨"lt", "lt", []⟩ "in" true ("a", true) none 3, .input ⟨"lt", "lt", []⟩ "in" true ("b", true) none 3] = ["a"] := by
   decide
 
 /-- non-vacuity: `c` is `LessThan` on one branch and another template on the other: both inputs are reported -/
 example : LessThanPass.reported .bn254
     [.inst ⟨"c", "c", []⟩ .lessThan, .inst ⟨"c", "c", []⟩ .unknown,
-     .input ⟨"c", "c", []⟩ "in" true "a" none, .input ⟨"c", "c", []⟩ "in" true "b" none] = ["a", "b"] := by
+     .input ⟨"c", "c", []⟩ "in" true ("a", true) none 0, .input ⟨"c", "c", []⟩ "in" true ("b", true) none 0] = ["a", "b"] := by
+  decide
+
+/-- non-vacuity: `nb[i].in <== x[i]` in the loop body (block 2), `lt.in[0] <== x[i]` after the loop (block 3): the expression `x[i]`
+    reads the local `i`, the range check is in another block, so it is reported; checked and compared in one block it is not -/
+example : LessThanPass.reported .bn254
+    [.inst ⟨"lt", "lt", []⟩ .lessThan, .inst ⟨"nb[i.1]", "nb", [.idx none]⟩ (.num2bits (some 8) "8"),
+     .input ⟨"nb[i.1]", "nb", [.idx none]⟩ "in" false ("x[i.1]", false) none 2,
+     .input ⟨"lt", "lt", []⟩ "in" true ("x[i.1]", false) none 3] = ["x[i.1]"] ∧
+  LessThanPass.reported .bn254
+    [.inst ⟨"lt", "lt", []⟩ .lessThan, .inst ⟨"nb[i.1]", "nb", [.idx none]⟩ (.num2bits (some 8) "8"),
+     .input ⟨"nb[i.1]", "nb", [.idx none]⟩ "in" false ("x[i.1]", false) none 2,
+     .input ⟨"lt", "lt", []⟩ "in" true ("x[i.1]", false) none 2] = [] := by
   decide
 
 end Circomspect.C11
